@@ -169,13 +169,13 @@ Erase(kids) ==
 RECURSIVE InsertExcl(_, _, _)
 InsertExcl(kids, path, pos) ==
   IF path = <<>> THEN SubSeq(kids, 1, pos) \o << [rep |-> "req", kids |-> <<>>, excl |-> TRUE] >> \o SubSeq(kids, pos + 1, Len(kids))
-  ELSE [kids EXCEPT ![path[1]] = [rep |-> @.rep, kids |-> InsertExcl(@.kids, Tail(path), pos)]]
+  ELSE [kids EXCEPT ![path[1]] = [@ EXCEPT !.kids = InsertExcl(@, Tail(path), pos)]]
 \* replace fields start..start+len-1 of the struct at path by an embedded struct holding them
 RECURSIVE EmbedRun(_, _, _, _)
 EmbedRun(kids, path, start, len) ==
   IF path = <<>> THEN SubSeq(kids, 1, start - 1) \o << [rep |-> "req", kids |-> SubSeq(kids, start, start + len - 1), emb |-> TRUE] >>
                       \o SubSeq(kids, start + len, Len(kids))
-  ELSE [kids EXCEPT ![path[1]] = [rep |-> @.rep, kids |-> EmbedRun(@.kids, Tail(path), start, len)]]
+  ELSE [kids EXCEPT ![path[1]] = [@ EXCEPT !.kids = EmbedRun(@, Tail(path), start, len)]]
 \* all group paths (<<>> = the root struct)
 RECURSIVE GroupPaths(_)
 GroupPaths(kids) ==
